@@ -28,7 +28,7 @@ package main
 //        len(e) == n / != n      e == nil / != nil (an option type)      reflect.TypeOf(v) == t / != t
 //        a == b on node keys
 //   if x, ok = m[k]; !ok { …no fall through… }                                             find_node
-//   continue   break   return acc, nil   return nil, fmt.Errorf("…")   return icb.AppendHandlers(ctx, ri, acc...)
+//   continue   break   return acc, nil   return nil, fmt.Errorf("…")   return icb.AppendHandlers(ctx, ri, acc...)   (ri: an ignored local, or an expression over no translated variable)
 //   acc[k] = append(acc[k], x) / (…, xs...)        acc = append(acc, xs...)
 //   x := e     x.paths = e     var x T
 //   e ::= variable | e.field | e[0] | e[1:] | l[i] | len(e) | e.deepCopy() | NewNodePath(e...) | []*NodePath{e, …}
@@ -1243,9 +1243,9 @@ func (t *c16Tr) stmts(root *c16Root, l []ast.Stmt, k string, ind string) (string
 				return "(Fail " + code + ")", nil
 			}
 		case 1:
-			// return icb.AppendHandlers(ctx, ri, acc...)
+			// return icb.AppendHandlers(ctx, ri, acc...)   (ri: an ignored local, or an expression over no translated variable)
 			if call, ok := x.Results[0].(*ast.CallExpr); ok && c16Str(call.Fun) == "icb.AppendHandlers" && len(call.Args) == 3 && call.Ellipsis.IsValid() {
-				if c16Str(call.Args[0]) == t.ctxArg && t.ignore[c16Str(call.Args[1])] && c16Str(call.Args[2]) == t.acc && t.accTy == "handlers" {
+				if c16Str(call.Args[0]) == t.ctxArg && (t.ignore[c16Str(call.Args[1])] || t.c16OutsideModel(call.Args[1])) && c16Str(call.Args[2]) == t.acc && t.accTy == "handlers" {
 					return "(Return " + accV + ")", nil
 				}
 			}
@@ -1709,6 +1709,15 @@ func c16DeepCopy(f *ast.File) (string, error) {
 							pending[c16Str(x.Lhs[0])] = sel.Sel.Name
 							continue
 						}
+					}
+				}
+			}
+			// nX := append([]T(nil), o.F...)   (also []T{} and make([]T, 0, …) as the empty slice): a copy in one statement
+			if len(x.Lhs) == 1 && len(x.Rhs) == 1 && x.Tok == token.DEFINE {
+				if call, ok := x.Rhs[0].(*ast.CallExpr); ok && c16Str(call.Fun) == "append" && len(call.Args) == 2 && call.Ellipsis.IsValid() && c16FreshEmptySlice(call.Args[0]) {
+					if sel, ok := call.Args[1].(*ast.SelectorExpr); ok && c16Str(sel.X) == recv {
+						copies[c16Str(x.Lhs[0])] = sel.Sel.Name
+						continue
 					}
 				}
 			}
@@ -2264,6 +2273,10 @@ func c16ExtractTasks(repo string) (string, string, error) {
 			}
 		}
 	}
+	if optMap == "" && !c16CallsNamed(run.Body, "extractOption") {
+		// the extraction is not in run any more (moved into a helper, another entry point): nothing to compare with
+		return "", "", fmt.Errorf("run: no extraction of the call's options in the body (shape not recognised)")
+	}
 	flows = append(flows, flow{"run: the option map is extracted unconditionally by runner.extractOption from the call's own options", optMap != "" && topLevel})
 	if optMap == "" {
 		optMap = "optMap"
@@ -2298,19 +2311,93 @@ func c16ExtractTasks(repo string) (string, string, error) {
 		}
 		return true
 	})
+	if submitted == "" {
+		return "", "", fmt.Errorf("run: no submit of tasks in the body (shape not recognised)")
+	}
 	n, with := 0, 0
+	isTaskCtor := func(name string) bool {
+		return name == "restoreTasks" || name == "calculateNextTasks" || name == "createTasks"
+	}
+	// private methods of the runner that build the submitted tasks on behalf of run (a branch of run moved into a
+	// helper that is handed the option map): the helper's parameter stands for the map inside its body
+	type c16FlowHelper struct {
+		fn *ast.FuncDecl
+		om string
+	}
+	var flowHelpers []c16FlowHelper
 	ast.Inspect(run.Body, func(x ast.Node) bool {
 		as, ok := x.(*ast.AssignStmt)
-		if !ok || len(as.Rhs) != 1 || len(as.Lhs) == 0 || c16Str(as.Lhs[0]) != submitted {
+		if !ok || len(as.Rhs) != 1 || len(as.Lhs) == 0 {
 			return true
 		}
-		if call, ok := as.Rhs[0].(*ast.CallExpr); ok {
-			if sel, ok := call.Fun.(*ast.SelectorExpr); ok && (sel.Sel.Name == "restoreTasks" || sel.Sel.Name == "calculateNextTasks" || sel.Sel.Name == "createTasks") {
+		first, any := c16Str(as.Lhs[0]) == submitted, false
+		for _, l := range as.Lhs {
+			if c16Str(l) == submitted {
+				any = true
+			}
+		}
+		if !any {
+			return true
+		}
+		call, ok := as.Rhs[0].(*ast.CallExpr)
+		if !ok {
+			return true
+		}
+		sel, ok := call.Fun.(*ast.SelectorExpr)
+		if !ok {
+			return true
+		}
+		if isTaskCtor(sel.Sel.Name) {
+			if first {
 				n++
 				if c16LastArgIs(call, optMap) {
 					with++
 				}
 			}
+			return true
+		}
+		if c16Str(sel.X) != run.Recv.List[0].Names[0].Name {
+			return true
+		}
+		h := c16Method(f, "*runner", sel.Sel.Name)
+		if h == nil || h.Body == nil {
+			return true
+		}
+		// a helper of the runner produces the submitted tasks: it counts as one construction; it is handed the map
+		// iff one argument is the map and every construction inside the helper is handed the matching parameter
+		n++
+		hps := c16Params(h)
+		om := ""
+		for i, a := range call.Args {
+			if c16Str(a) == optMap && i < len(hps) && strings.HasSuffix(hps[i], " map[string][]any") {
+				om = strings.TrimSuffix(hps[i], " map[string][]any")
+			}
+		}
+		if om == "" {
+			return true
+		}
+		k, w, bad := 0, 0, 0
+		ast.Inspect(h.Body, func(y ast.Node) bool {
+			switch z := y.(type) {
+			case *ast.CallExpr:
+				if s2, ok := z.Fun.(*ast.SelectorExpr); ok && isTaskCtor(s2.Sel.Name) {
+					k++
+					if c16LastArgIs(z, om) {
+						w++
+					}
+				}
+			case *ast.AssignStmt:
+				for _, l := range z.Lhs {
+					if c16Str(l) == om {
+						bad++
+					}
+				}
+			}
+			return true
+		})
+		if k >= 1 && k == w && bad == 0 {
+			with++
+			flowHelpers = append(flowHelpers, c16FlowHelper{h, om})
 		}
 		return true
 	})
@@ -2352,28 +2439,10 @@ func c16ExtractTasks(repo string) (string, string, error) {
 			continue
 		}
 		om := strings.TrimSuffix(mps[len(mps)-1], " map[string][]any")
-		ast.Inspect(m.Body, func(x ast.Node) bool {
-			switch y := x.(type) {
-			case *ast.AssignStmt:
-				for _, l := range y.Lhs {
-					if c16Str(l) == om {
-						writes++
-					}
-					if ix, ok := l.(*ast.IndexExpr); ok && c16Str(ix.X) == om {
-						writes++
-					}
-				}
-			case *ast.CallExpr:
-				if (c16Str(y.Fun) == "delete" || c16Str(y.Fun) == "clear") && len(y.Args) > 0 && c16Str(y.Args[0]) == om {
-					writes++
-				}
-			case *ast.IncDecStmt:
-				if ix, ok := y.X.(*ast.IndexExpr); ok && c16Str(ix.X) == om {
-					writes++
-				}
-			}
-			return true
-		})
+		writes += c16MapWrites(m.Body, om)
+	}
+	for _, fh := range flowHelpers {
+		writes += c16MapWrites(fh.fn.Body, fh.om)
 	}
 	flows = append(flows, flow{"calculateNextTasks / createTasks / restoreTasks only read the option map", writes == 0})
 	// (5) the task manager of the run keeps the call's option list
@@ -2386,6 +2455,9 @@ func c16ExtractTasks(repo string) (string, string, error) {
 		}
 		return true
 	})
+	if !c16CallsNamed(run.Body, "initTaskManager") {
+		return "", "", fmt.Errorf("run: no initTaskManager in the body (shape not recognised)")
+	}
 	itm := c16Method(f, "*runner", "initTaskManager")
 	okField := false
 	if itm != nil && itm.Body != nil {
@@ -2398,33 +2470,26 @@ func c16ExtractTasks(repo string) (string, string, error) {
 						okField = true
 					}
 				}
+				// tm.opts = opts as a statement of its own
+				if as, ok := x.(*ast.AssignStmt); ok && len(as.Lhs) == 1 && len(as.Rhs) == 1 && as.Tok == token.ASSIGN {
+					if sel, ok := as.Lhs[0].(*ast.SelectorExpr); ok && sel.Sel.Name == "opts" && c16Str(as.Rhs[0]) == io {
+						okField = true
+					}
+				}
 				return true
 			})
 		}
 	}
 	flows = append(flows, flow{"run: the task manager is given the call's option list", okTm && okField})
 	// (6) executor: the node's callbacks from the call's list, the node's call with the task's slice
-	ex := c16Method(fm, "*taskManager", "executor")
-	okCb, okRun := false, false
-	if ex != nil && ex.Body != nil && len(ex.Recv.List[0].Names) == 1 && len(ex.Type.Params.List) == 1 && len(ex.Type.Params.List[0].Names) == 1 {
-		tm := ex.Recv.List[0].Names[0].Name
-		tk := ex.Type.Params.List[0].Names[0].Name
-		for _, s := range ex.Body.List { // top level of the body: unconditional
-			as, ok := s.(*ast.AssignStmt)
-			if !ok || len(as.Rhs) != 1 {
-				continue
-			}
-			call, ok := as.Rhs[0].(*ast.CallExpr)
-			if !ok {
-				continue
-			}
-			switch c16Str(call.Fun) {
-			case "initNodeCallbacks":
-				okCb = call.Ellipsis.IsValid() && c16LastArgIs(call, tm+".opts") && len(call.Args) >= 2 && c16Str(call.Args[1]) == tk+".nodeKey"
-			case tm + ".runWrapper":
-				okRun = call.Ellipsis.IsValid() && c16LastArgIs(call, tk+".option")
-			}
-		}
+	exFn := c16Method(fm, "*taskManager", "executor")
+	if exFn == nil || exFn.Body == nil {
+		return "", "", fmt.Errorf("method taskManager.executor not found (shape not recognised)")
+	}
+	okCb, okRun := c16ExecutorFacts(fm, exFn, 2)
+	if !okCb && !okRun && !c16ReachesCall(fm, exFn, "initNodeCallbacks", 3) && !c16ReachesCall(fm, exFn, "runWrapper", 3) {
+		// neither call is in the executor or in a method it calls: the node call lives somewhere else now
+		return "", "", fmt.Errorf("executor: neither initNodeCallbacks nor the node call found (shape not recognised)")
 	}
 	flows = append(flows, flow{"executor: initNodeCallbacks gets the node's key and the call's option list", okCb})
 	flows = append(flows, flow{"executor: the node is called with the task's option slice", okRun})
@@ -2545,4 +2610,176 @@ func c16ExtractValidate(repo string) (string, string, error) {
 	b.WriteString("(* [chk c es] = c.action.checkOption(es...) *)\n")
 	b.WriteString("Definition runnerExtractOption (chk : node -> list entry -> res unit) (nodes : graph) (opts : list copt) : res optmap :=\n  go_result (\n    " + body + ").\n")
 	return "OptValidate.v", b.String(), nil
+}
+
+// c16OutsideModel: an expression that mentions no translated variable (the option list, the accumulator, the node
+// key, a loop variable) - e.g. the RunInfo built in place by a private helper, newCallbackRunInfo(info, meta), instead
+// of the local ri: what names the node is outside the model, and an expression that is not handed the accumulator or the
+// options cannot change which handlers are collected.
+func (t *c16Tr) c16OutsideModel(e ast.Expr) bool {
+	ok := true
+	ast.Inspect(e, func(n ast.Node) bool {
+		switch x := n.(type) {
+		case *ast.Ident:
+			if _, bound := t.vars[x.Name]; bound || x.Name == t.acc || x.Name == t.ctxArg {
+				ok = false
+			}
+			if _, bound := t.idx[x.Name]; bound {
+				ok = false
+			}
+		case *ast.FuncLit:
+			ok = false
+		case *ast.UnaryExpr:
+			if x.Op == token.ARROW {
+				ok = false
+			}
+		}
+		return ok
+	})
+	return ok
+}
+
+// c16MapWrites counts the statements of body that change the map named om (assignment to it or to an entry, delete,
+// clear, ++ / -- on an entry).
+func c16MapWrites(body *ast.BlockStmt, om string) int {
+	writes := 0
+	ast.Inspect(body, func(x ast.Node) bool {
+		switch y := x.(type) {
+		case *ast.AssignStmt:
+			for _, l := range y.Lhs {
+				if c16Str(l) == om {
+					writes++
+				}
+				if ix, ok := l.(*ast.IndexExpr); ok && c16Str(ix.X) == om {
+					writes++
+				}
+			}
+		case *ast.CallExpr:
+			if (c16Str(y.Fun) == "delete" || c16Str(y.Fun) == "clear") && len(y.Args) > 0 && c16Str(y.Args[0]) == om {
+				writes++
+			}
+		case *ast.IncDecStmt:
+			if ix, ok := y.X.(*ast.IndexExpr); ok && c16Str(ix.X) == om {
+				writes++
+			}
+		}
+		return true
+	})
+	return writes
+}
+
+// c16ExecutorFacts: at the top level of the executor's body (unconditionally) the node's callbacks are initialised from
+// the task manager's option list and the node's key, and the node is called with the task's option slice. When the
+// body has neither statement but hands the task, unconditionally, to another method of the task manager (the node
+// call moved into a helper: `t.runNode(currentTask)`), the facts are read there (depth: how many hand-overs are followed).
+func c16ExecutorFacts(fm *ast.File, ex *ast.FuncDecl, depth int) (okCb, okRun bool) {
+	if ex == nil || ex.Body == nil || ex.Recv == nil || len(ex.Recv.List) != 1 || len(ex.Recv.List[0].Names) != 1 ||
+		len(ex.Type.Params.List) != 1 || len(ex.Type.Params.List[0].Names) != 1 {
+		return false, false
+	}
+	tm := ex.Recv.List[0].Names[0].Name
+	tk := ex.Type.Params.List[0].Names[0].Name
+	seen := false
+	for _, s := range ex.Body.List { // top level of the body: unconditional
+		as, ok := s.(*ast.AssignStmt)
+		if !ok || len(as.Rhs) != 1 {
+			continue
+		}
+		call, ok := as.Rhs[0].(*ast.CallExpr)
+		if !ok {
+			continue
+		}
+		switch c16Str(call.Fun) {
+		case "initNodeCallbacks":
+			seen = true
+			okCb = call.Ellipsis.IsValid() && c16LastArgIs(call, tm+".opts") && len(call.Args) >= 2 && c16Str(call.Args[1]) == tk+".nodeKey"
+		case tm + ".runWrapper":
+			seen = true
+			okRun = call.Ellipsis.IsValid() && c16LastArgIs(call, tk+".option")
+		}
+	}
+	if seen || depth == 0 {
+		return okCb, okRun
+	}
+	for _, s := range ex.Body.List {
+		es, ok := s.(*ast.ExprStmt)
+		if !ok {
+			continue
+		}
+		call, ok := es.X.(*ast.CallExpr)
+		if !ok || len(call.Args) != 1 || c16Str(call.Args[0]) != tk {
+			continue
+		}
+		sel, ok := call.Fun.(*ast.SelectorExpr)
+		if !ok || c16Str(sel.X) != tm {
+			continue
+		}
+		if cb, run := c16ExecutorFacts(fm, c16Method(fm, "*taskManager", sel.Sel.Name), depth-1); cb || run {
+			return cb, run
+		}
+	}
+	return false, false
+}
+
+// c16CallsNamed: some call in n whose function is named name or ends in .name
+func c16CallsNamed(n ast.Node, name string) bool {
+	found := false
+	ast.Inspect(n, func(x ast.Node) bool {
+		if call, ok := x.(*ast.CallExpr); ok {
+			if f := c16Str(call.Fun); f == name || strings.HasSuffix(f, "."+name) {
+				found = true
+			}
+		}
+		return !found
+	})
+	return found
+}
+
+// c16ReachesCall: fn's body, or the body of a method of the same receiver type that it calls (depth levels), calls name
+func c16ReachesCall(f *ast.File, fn *ast.FuncDecl, name string, depth int) bool {
+	if fn == nil || fn.Body == nil {
+		return false
+	}
+	if c16CallsNamed(fn.Body, name) {
+		return true
+	}
+	if depth == 0 || fn.Recv == nil || len(fn.Recv.List) != 1 || len(fn.Recv.List[0].Names) != 1 {
+		return false
+	}
+	recv, rt := fn.Recv.List[0].Names[0].Name, c16Str(fn.Recv.List[0].Type)
+	found := false
+	ast.Inspect(fn.Body, func(x ast.Node) bool {
+		if call, ok := x.(*ast.CallExpr); ok && !found {
+			if sel, ok := call.Fun.(*ast.SelectorExpr); ok && c16Str(sel.X) == recv {
+				if m := c16Method(f, rt, sel.Sel.Name); m != nil && m != fn && c16ReachesCall(f, m, name, depth-1) {
+					found = true
+				}
+			}
+		}
+		return !found
+	})
+	return found
+}
+
+// c16FreshEmptySlice: []T(nil), []T{} or make([]T, 0[, c]) - a slice without elements that shares no array with anything
+func c16FreshEmptySlice(e ast.Expr) bool {
+	switch x := e.(type) {
+	case *ast.CompositeLit:
+		_, isArr := x.Type.(*ast.ArrayType)
+		return isArr && len(x.Elts) == 0
+	case *ast.CallExpr:
+		if _, isArr := x.Fun.(*ast.ArrayType); isArr {
+			return len(x.Args) == 1 && c16IsNil(x.Args[0])
+		}
+		if p, ok := x.Fun.(*ast.ParenExpr); ok {
+			if _, isArr := p.X.(*ast.ArrayType); isArr {
+				return len(x.Args) == 1 && c16IsNil(x.Args[0])
+			}
+		}
+		if c16Str(x.Fun) == "make" && len(x.Args) >= 2 {
+			_, isArr := x.Args[0].(*ast.ArrayType)
+			return isArr && c16Str(x.Args[1]) == "0"
+		}
+	}
+	return false
 }
